@@ -19,7 +19,8 @@ import mir_eval.hierarchy as H
 from core import Case
 
 PID = "C17"
-LEAN_MODULES = ["MirProofs.Props.C17"]
+LEAN_MODULES = ["MirProofs.Props.C17", "MirProofs.Props.C02_Hierarchy", "MirProofs.Props.C08_Hierarchy",
+                "MirProofs.Props.C12_Hierarchy"]
 RULE = ("stream E: boundaries on the 1/32 s lattice (half of the cases snapped to the frame grid), 1-4 levels, "
         "nested or independent, common span 1-8 s, frame_size in {1/4,1/2,1}, window in {None,fs,2fs,15}, both "
         "transitive settings, beta in {1/2,1,2}; non-trivial = at least one query frame has a reference triple "
@@ -37,7 +38,11 @@ ASSUMPTIONS = [
 ]
 UNPROVED = [
     "hierarchy.evaluate is modelled (alignment via util.adjust_intervals, 9 keys in order) and compared value for "
-    "value, but no theorem is stated about it here (the bundle is C03's subject)",
+    "value; the only theorem about it is C08_Hierarchy.evaluate_T_ignores_labels (its six T entries do not depend "
+    "on label contents); that it is the documented bundle is C03's subject",
+    "relational theorems (C02_Hierarchy: self-score (1,1,1)/(0,0,0) by the decidable predicate hasRefTriple; "
+    "C08_Hierarchy: label renaming; C12_Hierarchy: segment splitting) are proved; an input-level characterisation of "
+    "hasRefTriple (e.g. 'some level has two segments longer than a frame') is not stated",
     "util.adjust_intervals / validate_hier_intervals on malformed input: modelled and compared, no theorem "
     "(C13 / C14's subjects); validation of VALID annotations is proved (tmeasure_total_partial)",
 ]
@@ -716,6 +721,26 @@ CHECKERS = {"hierarchy.tmeasure": check_tmeasure, "hierarchy.lmeasure": check_lm
             "hierarchy.tmeasure/params": check_t_params, "hierarchy.lmeasure/params": check_l_params}
 ORACLES = {"hierarchy.tmeasure": gen_tmeasure, "hierarchy.lmeasure": gen_lmeasure,
            "hierarchy.tmeasure/params": gen_t_params, "hierarchy.lmeasure/params": gen_l_params}
+
+
+def _rel_checker(site):
+    def chk(inp):
+        from props import t_hierrel      # late: t_hierrel imports this module
+        return t_hierrel.CHECKERS[site](inp)
+    return chk
+
+
+def _rel_oracle(site):
+    def gen(rng, tier, shard, nshards, boost):
+        from props import t_hierrel
+        yield from t_hierrel.ORACLES[site](rng, tier, shard, nshards, boost)
+    return gen
+
+
+# the relational oracles on the real tmeasure / lmeasure / evaluate that go with C02_ / C08_Hierarchy
+for _site in ("hierarchy:self", "hierarchy:relabel"):
+    CHECKERS[_site] = _rel_checker(_site)
+    ORACLES[_site] = _rel_oracle(_site)
 
 
 def classify(suite, d):
